@@ -1,6 +1,6 @@
 (* Reference definitions for property C19, on plain lists of bytes (the terminator is not part of a string).
    Written independently of StrModel.v: no indices, no buffers, no fuel. *)
-From Coq Require Import NArith List Bool.
+From Coq Require Import NArith ZArith List Bool.
 Import ListNotations.
 Local Open Scope N_scope.
 
@@ -104,3 +104,22 @@ Fixpoint first_field (delims s : list N) : list N * N * nat :=
   end.
 Definition strtok_spec (delims rest : list N) : option (list N * N * nat) :=
   match rest with [] => None | _ => Some (first_field delims rest) end.
+
+(* ---------- comma-separated decimal number (extra; qstr_comma_number) ---------- *)
+(* decimal digits (ASCII) of n, most significant first; fuel >= number of digits *)
+Fixpoint decimal (fuel : nat) (n : N) : list N :=
+  match fuel with
+  | O => []
+  | S f => if n <? 10 then [48 + n] else decimal f (n / 10) ++ [48 + n mod 10]
+  end.
+Definition undecimal (ds : list N) : N := fold_left (fun a d => 10 * a + (d - 48)) ds 0.
+Fixpoint chunks3 (l : list N) : list (list N) :=
+  match l with a :: b :: c :: r => [a; b; c] :: chunks3 r | [] => [] | _ => [l] end.
+Fixpoint join (sep : N) (gs : list (list N)) : list N :=
+  match gs with [] => [] | [g] => g | g :: r => g ++ sep :: join sep r end.
+(* groups of three digits counted from the right, separated by commas *)
+Definition group3 (ds : list N) : list N :=
+  let k := (length ds mod 3)%nat in
+  join 44 ((if (k =? 0)%nat then [] else [firstn k ds]) ++ chunks3 (skipn k ds)).
+Definition comma_spec (number : Z) : list N :=
+  (if (number <? 0)%Z then [45] else []) ++ group3 (decimal 10 (Z.to_N (Z.abs number))).
